@@ -3,7 +3,7 @@
 
 From Coq Require Import String.
 From Coq Require Import NArith ZArith List Bool.
-From DictIO Require Import Chars Str Value Scalar KeyPath SDict Layout Lexer TokParser TreeSpec NativeSpec E2ESpec QuoteProofs TokProofs E2EProofs.
+From DictIO Require Import Chars Str Value Scalar KeyPath SDict Layout Lexer TokParser TreeSpec NativeSpec E2ESpec QuoteProofs TokProofs E2EProofs E2EFullProofs.
 Import ListNotations.
 
 (* a string without single quotes, wrapped in single quotes, is matched at its opening quote as exactly one
@@ -156,3 +156,46 @@ Example C01_e2e_example :
   wf (Dict d) = true /\ simple_tree (Dict d) = true /\
   parse_string true [] 7 (to_string_plain d) = Ok (mkParsed (mkSD (kvs_of (map_leaves norm_scalar (Dict d))) [] [] [] []) 7).
 Proof. vm_compute. repeat split; reflexivity. Qed.
+
+(* ---- end to end on the full writer domain: string leaves that the writer wraps in quotes included ------------- *)
+(* Writing a dict and reading the text back returns the dict, every leaf as the classifier reads the CONTENT of its
+   written form (written_value): blanks, delimiters, backslashes, an apostrophe or an inner double-quoted segment,
+   non-ASCII text, the empty string.  Side conditions, each forced by a counterexample found while proving
+   (C01_roundtrip_refuted below is the machine-checked negation of the statement without them):
+     -1 <= count                    the placeholder counter never is below -1 (BorgCounter starts at -1, wraps to 0);
+                                    the model clamps a negative number to 0, so two literals would share an id
+     at most 1000000 quoted leaves  placeholders carry six digits; beyond that the counter wraps and ids collide
+     quoted_within 11               a quoted literal more than ten keys deep makes set_global_key raise (the library's
+                                    documented limit of ten nesting levels; the quantifier of C01 stops at nine) *)
+Theorem C01_roundtrip : forall kvs dirc count,
+  wf (Dict kvs) = true -> writable_tree (Dict kvs) = true ->
+  (-1 <= count)%Z -> (Z.of_nat (nq (Dict kvs)) <= 1000000)%Z -> quoted_within 11 (Dict kvs) = true ->
+  exists count',
+  parse_string true dirc count (to_string_plain kvs) =
+    Ok (mkParsed (mkSD (kvs_of (map_leaves written_value (Dict kvs))) [] [] [] []) count').
+Proof. exact roundtrip_native_partial. Qed.
+Print Assumptions C01_roundtrip.
+
+Theorem C01_roundtrip_refuted :
+  ~ (forall kvs dirc count, wf (Dict kvs) = true -> writable_tree (Dict kvs) = true ->
+     exists count', parse_string true dirc count (to_string_plain kvs) =
+       Ok (mkParsed (mkSD (kvs_of (map_leaves written_value (Dict kvs))) [] [] [] []) count')).
+Proof. exact roundtrip_native_false. Qed.
+Print Assumptions C01_roundtrip_refuted.
+
+(* a string leaf that the classifier does not re-type comes back as itself *)
+Theorem C01_string_unchanged : forall s, writable_leaf (SStr s) = true -> parse_value s = Ok (SStr s) ->
+  written_value (SStr s) = SStr s.
+Proof. exact written_value_string. Qed.
+Print Assumptions C01_string_unchanged.
+
+Example C01_roundtrip_nonvacuous :
+  let d := [(KS (of_string "alpha"), Leaf (SStr (of_string "two words")));
+    (KI 3, Dict [(KS (of_string "b"), Lst [Leaf (SStr (of_string "it's")); Lst [Leaf (SStr (of_string "say ""hi"" now"))];
+                                             Dict [(KS (of_string "c"), Leaf (SStr (of_string "a;b")))]]);
+                 (KS (of_string "e"), Leaf (SStr (of_string "")))]);
+    (KS (of_string "w"), Leaf (SStr (of_string " true "))); (KS (of_string "p"), Leaf (SStr (of_string "C:\dir\")));
+    (KS (of_string "q"), Leaf (SStr (of_string "(")))] in
+  wf (Dict d) = true /\ writable_tree (Dict d) = true /\ (Z.of_nat (nq (Dict d)) <= 1000000)%Z /\ quoted_within 11 (Dict d) = true /\
+  parse_string true [] 7 (to_string_plain d) = Ok (mkParsed (mkSD (kvs_of (map_leaves written_value (Dict d))) [] [] [] []) 15).
+Proof. vm_compute. repeat split; try reflexivity; discriminate. Qed.
